@@ -30,6 +30,7 @@ TOTAL_ACCESSORS = {
     "alloc::collections::linked_list::LinkedList::iter", "alloc::collections::btree::map::BTreeMap::iter",
     "alloc::collections::btree::map::BTreeMap::values", "alloc::collections::btree::map::BTreeMap::keys",
     "alloc::collections::btree::set::BTreeSet::iter", "alloc::collections::binary_heap::BinaryHeap::iter",
+    "alloc::collections::binary_heap::BinaryHeap::as_slice",
     "std::collections::hash::map::HashMap::iter", "std::collections::hash::set::HashSet::iter",
     "lock::Lock::get", "lock::RefLock::borrow", "lock::OnceLock::get", "gc::Gc::erase", "gc_weak::GcWeak::erase",
     "slotmap::basic::SlotMap::values", "slotmap::basic::SlotMap::iter", "enum_map::EnumMap::values", "enum_map::EnumMap::iter",
@@ -127,7 +128,8 @@ def _local_chains(prog, body, defs, local, depth, seen):
                 out.add(("other", (name,), ()))
                 continue
             for (root, acc, fl) in chains_of(prog, body, defs, t["args"][0], depth + 1, seen):
-                out.add((root, acc + (name,), fl))
+                # the projection that follows a splitting accessor selects one of its parts: mark where it starts
+                out.add((root, acc + (name,), fl + ((("split", name),) if name in SPLITTING_ACCESSORS else ())))
     if 1 <= local <= body["argc"]:
         out.add((local, (), ()))
     return out
@@ -502,9 +504,10 @@ def analyse_trace(prog, im, key):
             for (r, acc, fl) in s.chain:
                 if a in acc:
                     used = True
-                    idx = [p_[1] for p_ in fl if p_[0] == "f"]
+                    after = fl[fl.index(("split", a)) + 1:] if ("split", a) in fl else fl
+                    idx = [p_[1] for p_ in after if p_[0] == "f"]
                     if idx:
-                        parts.add(idx[-1])
+                        parts.add(idx[0])
         if used and parts != set(range(n)):
             probs.append("`%s` yields %d parts, only part(s) %s are traced: the elements in the others are skipped" % (
                 a, n, sorted(parts)))
